@@ -129,6 +129,13 @@ def asyncio_loop(cls, tag='C12', fate=None):
         else:
             out = E.attempt(lambda: E.method(h, 'handle'), allow_cut=True)
         E.prove('%s:no-exception-escapes-the-serving-loop' % tag, out.ok)
+        if 'Disconnected' in cls and tag == 'C12':
+            # one task serves every peer of the datagram server: whatever a datagram is (empty, garbage, a request) and whatever the queue or
+            # the framer raised, the task goes round again - nothing a peer sends stops the service for the others
+            if out.cut:
+                E.prove('C12:no-datagram-stops-the-datagram-server', L.truth(h.running))
+            elif E.mode == 'concrete':
+                E.prove('C12:no-datagram-stops-the-datagram-server', calls[0] > 3)
         if out.cut:
             E.prove('%s:after-an-exception-the-connection-is-closed-or-the-framer-reset' % tag, L.Implies(G.raised, L.Or(L.Not(L.truth(h.running)), G.reset, G.closed)))
             if fate == 'closed':
